@@ -149,8 +149,14 @@ def sites(prog):
                 hp = _path_of(prog, holder)
                 if hp is None:
                     continue
-                if e["k"] == "int" and "enum" not in e and not ctx.get("index"):
-                    out.append(("LitToCall", {"holder": hp, "key": key, "shape": s["k"] + ("/loopcond" if ctx.get("loopcond") else "")}))
+                is_lit = (e["k"] == "int" and "enum" not in e) or e["k"] == "bool"
+                if is_lit and not ctx.get("index"):
+                    shape = s["k"] + ("/loopcond" if ctx.get("loopcond") else "") + ("/logic" if ctx.get("in_logic") else "") + ":" + e["k"]
+                    out.append(("LitToCall", {"holder": hp, "key": key, "shape": shape}))
+                    # a literal has no effect and depends on nothing: it can be bound first whatever else the statement does
+                    if not ctx.get("loopcond") and s["k"] != "while" and not ctx.get("conditional"):
+                        out.append(("BindToLocal", {"block": bpath, "at": j, "holder": hp, "key": key,
+                                                    "shape": s["k"] + ("/logic" if ctx.get("in_logic") else "") + ":lit-" + e["k"]}))
                 if (e["k"] in ("bin", "neg", "cast", "cmp") and not has_call(e) and not stmt_has_call and not ctx.get("loopcond")
                         and not ctx.get("in_logic") and not ctx.get("conditional") and not ctx.get("index") and s["k"] != "while"):
                     out.append(("BindToLocal", {"block": bpath, "at": j, "holder": hp, "key": key, "shape": s["k"] + ":" + e["k"]}))
@@ -233,7 +239,7 @@ def apply(prog, kind, d, tag=0):
     if kind == "LitToCall":
         h = _get(q, d["holder"])
         lit = h[d["key"]]
-        t = tyname(lit["ty"])
+        t = "bool" if lit["k"] == "bool" else tyname(lit["ty"])
         name = "lit_%s_%d" % (t, tag)
         q["funcs"][name] = {"params": [], "ptys": [], "rty": t, "body": [{"k": "ret", "e": lit}]}
         h[d["key"]] = {"k": "call", "f": name, "args": []}
